@@ -8,8 +8,8 @@
 EXTENDS Noise
 CONSTANTS Full          \* TRUE: version substitutions and a corrupted field
                         \* combined; FALSE: one kind of tampering at a time
-VARIABLES pattern, cr, sr, pw, ie, re, pl, v1, v2, v3, ca, cf
-vars == <<pattern, cr, sr, pw, ie, re, pl, v1, v2, v3, ca, cf>>
+VARIABLES pattern, cr, sr, pw, ie, re, pl, v1, v2, v3, ca, cf, imp
+vars == <<pattern, cr, sr, pw, ie, re, pl, v1, v2, v3, ca, cf, imp>>
 
 Ranges == {<<a, b>> \in (0..2) \X (0..2) : a <= b}
 Payloads == {[id |-> "empty", big |-> FALSE], [id |-> "small", big |-> FALSE],
@@ -18,7 +18,7 @@ Subs == -1..3
 
 c == [pattern |-> pattern, cMin |-> cr[1], cMax |-> cr[2], sMin |-> sr[1],
       sMax |-> sr[2], pwEq |-> pw, iExpect |-> ie, rExpect |-> re, payload |-> pl,
-      verSub |-> <<v1, v2, v3>>, corruptAct |-> ca, corruptField |-> cf]
+      verSub |-> <<v1, v2, v3>>, corruptAct |-> ca, corruptField |-> cf, imp |-> imp]
 
 Init ==
     /\ pattern \in {XX, KK}
@@ -27,9 +27,11 @@ Init ==
     /\ v1 \in Subs /\ v2 \in Subs
     /\ IF pattern = XX
        THEN /\ pw \in BOOLEAN /\ ie = "none" /\ re = "none"
-            /\ v3 \in Subs /\ ca \in 0..3
+            /\ v3 \in Subs /\ ca \in 0..3 /\ imp = 0
        ELSE /\ pw = TRUE /\ ie \in {"sR", "sX"} /\ re \in {"sI", "sX"}
             /\ v3 = -1 /\ ca \in 0..2
+            \* an impersonator: right public keys all round, wrong private key
+            /\ imp \in {0, 1} /\ (imp = 1 => ca = 0)
     /\ cf \in 1..5
     /\ ca = 0 => cf = 1
     /\ Full \/ (v1 = -1 /\ v2 = -1 /\ v3 = -1) \/ ca = 0
